@@ -68,7 +68,10 @@ class VFSZip(VFS_Real):
                 # Written last: a store that lost entries has lost this one
                 # as well, or no longer matches it.
                 db[self.CACHE_COMPLETE_KEY] = len(self.dircache)
-        except OSError:
+        except Exception:
+            # Not only OSError: some dbm backends read what is on disk even
+            # when asked for a new store, and another request may be half-way
+            # through writing it.  The cache is optional.
             return False
         else:
             return True
